@@ -41,6 +41,7 @@ import (
 	"github.com/nuts-foundation/nuts-node/auth/oauth"
 	"github.com/nuts-foundation/nuts-node/auth/services"
 	"github.com/nuts-foundation/nuts-node/core"
+	httpEngine "github.com/nuts-foundation/nuts-node/http"
 	"github.com/nuts-foundation/nuts-node/http/client"
 	"github.com/nuts-foundation/nuts-node/jsonld"
 	"github.com/sirupsen/logrus"
@@ -63,6 +64,7 @@ type xOp struct {
 	Crypto  string   `json:"crypto,omitempty"`
 	SQL     bool     `json:"sql,omitempty"`
 	Dummy   bool     `json:"dummy,omitempty"`
+	Cache   string   `json:"cache,omitempty"` // http.cache.maxbytes: "" = default, "0" = response cache off, or a size (an option unrelated to strict mode)
 	DummyName string `json:"dummyname,omitempty"` // spelling of the test-only means in auth.contractvalidators (dummy, Dummy, DUMMY, ...)
 	Allow   []string `json:"allow,omitempty"`     // ctx: jsonld.contexts.remoteallowlist in effect
 	Fetches int      `json:"fetches,omitempty"`   // ctx: oracle data — outbound fetches the real loader attempted
@@ -156,6 +158,9 @@ func xConfigYAML(op xOp, dir string) string {
 	}
 	fmt.Fprintf(&sb, "didmethods: [%s]\n", strings.Join(op.Methods, ","))
 	fmt.Fprintf(&sb, "http:\n  internal:\n    address: \"127.0.0.1:0\"\n  public:\n    address: \"127.0.0.1:0\"\n")
+	if op.Cache != "" {
+		fmt.Fprintf(&sb, "  cache:\n    maxbytes: %s\n", op.Cache)
+	}
 	if op.TLS {
 		cert, trust := xCertFiles()
 		fmt.Fprintf(&sb, "tls:\n  certfile: %s\n  certkeyfile: %s\n  truststorefile: %s\n", cert, cert, trust)
@@ -406,6 +411,15 @@ func xExec(t *testing.T, op xOp, sock **xSock) (line string) {
 			return "load ok"
 		}
 		defer xShutdown(system)
+		if op.Cache != "" {
+			// also set the engine's own config field (the nested koanf key may not reach it through the loader)
+			system.VisitEngines(func(e core.Engine) {
+				if he, ok := e.(*httpEngine.Engine); ok {
+					n, _ := strconv.Atoi(op.Cache)
+					he.Config().(*httpEngine.Config).ResponseCacheSize = n
+				}
+			})
+		}
 		if err := system.Configure(); err != nil {
 			return "sys refuse:" + xStartErr(err)
 		}
@@ -737,6 +751,18 @@ func xGenerate(seed int64, thorough bool) []xOp {
 			op.Irma = "irma-demo"
 		}
 		ops = append(ops, op)
+	}
+	// an option that has nothing to do with strict mode — the size of the HTTP response cache — must not change any verdict
+	for _, strict := range []bool{true, false} {
+		for _, cache := range []string{"0", "4096", ""} {
+			for _, m := range [][]string{{"web"}, {"web", "nuts"}, {"nuts"}} {
+				for _, dummy := range []bool{false, true} {
+					op := secure
+					op.StrictUnset, op.Strict, op.Cache, op.Methods, op.Dummy, op.Tag = false, strict, cache, m, dummy, "cache-option"
+					ops = append(ops, op)
+				}
+			}
+		}
 	}
 	// a CLI secret on an otherwise fine node, both modes
 	for _, strict := range []bool{true, false} {
